@@ -217,6 +217,91 @@ class TomlStream(Stream):
 
 
 # --------------------------------------------------------------------------
+# licenses: Project._find_licenses under different glob orders
+
+
+def spec_identifier(name, known):
+    """identifier of a file in LICENSES/ as the documentation describes it: the name without its last extension when that is a
+    known identifier or a LicenseRef; the whole name for an extension-less known identifier; otherwise the stem"""
+    import re
+    stem, dot, ext = name.rpartition(".")
+    if not dot or not stem:
+        stem = name
+        has_ext = False
+    else:
+        has_ext = True
+    if has_ext and (stem in known or re.match(r"LicenseRef-[a-zA-Z0-9-.]+$", stem)):
+        return stem
+    if not has_ext and name in known:
+        return name
+    return stem
+
+
+class LicensesStream(Stream):
+    name = "licenses"
+    rule = ("LICENSES/ directories with 0-7 of 16 file names (known ids with and without extension, LicenseRef, unknown, two names "
+            "resolving to one identifier, a sub-directory, .license companions): the real Project._find_licenses with glob handing "
+            "out the files in 3 shuffled orders (and unshuffled) vs the model fed a reversed order vs the oracle (same dictionary or "
+            "the duplicate error under every order); non-trivial = distinct outcomes with >= 2 entries or a duplicate")
+    NAMES = ["MIT.txt", "MIT.md", "MIT", "GPL-3.0-or-later.txt", "LicenseRef-x.txt", "LicenseRef-x", "LicenseRef-x.y.txt", "foo.txt",
+             "foo.md", "0BSD", "sub/Apache-2.0.txt", "Apache-2.0.txt", "MIT.txt.license", "CC0-1.0.txt", "bar", "LicenseRef-Unknown.txt"]
+
+    def cases(self, tier, rng):
+        for _ in range(800 if tier == "thorough" else 120):
+            yield {"names": rng.sample(self.NAMES, rng.randint(0, 7)), "s": rng.randrange(1 << 30)}
+
+    def _real(self, root):
+        from reuse.project import Project
+        try:
+            proj = Project.from_directory(root)
+        except RuntimeError:
+            return "duplicate"
+        return show_p((i, str(p)) for i, p in proj.licenses.items())
+
+    def impl(self, case):
+        import logging
+        with cli.scratch("rv-c14l-") as root:
+            cli.write_tree(root, {"LICENSES/" + n: "text\n" for n in case["names"]})
+            cli.write_tree(root, {"a.py": "x\n"})
+            logging.disable(logging.CRITICAL)
+            try:
+                base = self._real(root)
+                for k in range(3):
+                    with shuffled_fs(case["s"] + k):
+                        got = self._real(root)
+                    if got != base:
+                        return base + "||ORDER-DEPENDENT||" + got
+            finally:
+                logging.disable(logging.NOTSET)
+        return base
+
+    def _known(self):
+        from reuse._licenses import LICENSE_MAP, EXCEPTION_MAP
+        return set(LICENSE_MAP) | set(EXCEPTION_MAP)
+
+    def _pairs(self, case):
+        known = self._known()
+        return [("LICENSES/" + n, spec_identifier(n.split("/")[-1], known)) for n in case["names"] if not n.endswith(".license")]
+
+    def model_lines(self, case):
+        pairs = list(reversed(self._pairs(case)))
+        return ["findlic\t" + (";".join(enc(p) + ">" + enc(i) for p, i in pairs) if pairs else "~")]
+
+    def oracle(self, case, impl_out):
+        if "||ORDER-DEPENDENT||" in impl_out:
+            return "licenses-order-dependent: " + impl_out[:300]
+        pairs = self._pairs(case)
+        ids = [i for p, i in pairs]
+        want = "duplicate" if len(set(ids)) != len(ids) else show_p((i, p) for p, i in pairs)
+        if impl_out != want:
+            return "licenses-differ: %s, expected %s" % (impl_out[:200], want[:200])
+        return None
+
+    def nontrivial(self, case, impl_out):
+        return impl_out if impl_out == "duplicate" or ";" in impl_out else None
+
+
+# --------------------------------------------------------------------------
 # endpat: the END pattern under different hash seeds
 
 _CHILD_END = r'''
@@ -507,7 +592,7 @@ class RootStream(Stream):
         return None
 
     def nontrivial(self, case, impl_out):
-        return tuple(sorted(set((c, s) for c, s in case["variants"])))
+        return (case["target"], case["rel"], len(set(map(tuple, case["variants"]))))
 
     def show(self, case):
         return {"target": case["target"], "rel": case["rel"], "variants": len(case["variants"])}
@@ -732,7 +817,7 @@ def table_roundtrip():
 
 PROPERTY = Property(
     pid="C14",
-    streams=[AggregateStream(), TomlStream(), WalkStream(), RootStream(), EndStream(), RunsStream()],
+    streams=[AggregateStream(), TomlStream(), LicensesStream(), WalkStream(), RootStream(), EndStream(), RunsStream()],
     table_roundtrip=table_roundtrip,
     assumptions=[
         "which process handles which file, fork/pickle, the per-worker re-parse of .reuse/dep5 and PYTHONHASHSEED itself are run-time "
